@@ -843,9 +843,25 @@ theorem parseFragmentPrefix_noThrow (data : Bytes) : NoThrow (parseFragmentPrefi
     | dsimp only)
 
 
+/-- piece `ix` of `l` is out of sequence for the context `before`: neither a first piece nor the piece that
+    follows the ones collected (same total).  For a legal numbering this is exactly the case in which
+    `fragAccept` forgets the context (`fragAccept_outOfSequence`) -/
+def fragOutOfSequence (before : FragCtx) (ix l : Nat) : Prop :=
+  ix ≠ 1 ∧ ¬ ((before.index + 1) % 65536 = ix ∧ before.len = l)
+
+instance (before : FragCtx) (ix l : Nat) : Decidable (fragOutOfSequence before ix l) :=
+  inferInstanceAs (Decidable (ix ≠ 1 ∧ ¬ ((before.index + 1) % 65536 = ix ∧ before.len = l)))
+
+theorem fragAccept_outOfSequence (before : FragCtx) (d : Bytes) (ix l : Nat)
+    (hv : ¬ (ix = 0 ∨ l = 0 ∨ ix > l)) (ho : fragOutOfSequence before ix l) :
+    fragAccept before d ix l = FragCtx.empty := by
+  unfold fragAccept
+  rw [if_neg hv, if_neg ho.1, if_neg ho.2]
+
 /-- `receiveFragment` (repaired code) in terms of the prefix parser: a fragment for another instance is ignored
     (with the event), a fragment that does not parse is rejected, one whose numbering is illegal (`k = 0`,
-    `n = 0` or `k > n`) is discarded — and in all three cases the conversation is unbound (`unbindState`) -/
+    `n = 0` or `k > n`) or that is out of sequence (neither a first piece nor the next piece of the stream being
+    collected) is discarded — and in all four cases the conversation is unbound (`unbindState`) -/
 theorem receiveFragment_run_of_prefix (before : FragCtx) (data : Bytes) (s s1 : MState) (body : Bytes)
     (ignore ok1 : Bool)
     (hp : runM (parseFragmentPrefix data) s = .ok (.ok (body, ignore, ok1), s1)) :
@@ -854,7 +870,8 @@ theorem receiveFragment_run_of_prefix (before : FragCtx) (data : Bytes) (s s1 : 
         .ok (.ok before, { unbindState s s1 with events := (unbindState s s1).events ++ ["msg:15"] })
       else match ok1, parseFragment body with
         | true, some (d, ix, l) =>
-          .ok (.ok (fragAccept before d ix l), if ix = 0 ∨ l = 0 ∨ ix > l then unbindState s s1 else s1)
+          .ok (.ok (fragAccept before d ix l),
+            if (ix = 0 ∨ l = 0 ∨ ix > l) ∨ fragOutOfSequence before ix l then unbindState s s1 else s1)
         | _, _ => .ok (.error (.other "invalid OTR fragment"), unbindState s s1) := by
   unfold receiveFragment
   rw [runM_bind, runM_getc, bindM_ok, runM_bind]
@@ -871,22 +888,31 @@ theorem receiveFragment_run_of_prefix (before : FragCtx) (data : Bytes) (s s1 : 
       | some x =>
         obtain ⟨d, ix, l⟩ := x
         simp only [runM_bind, runM_ite, runM_modc, runM_pure]
-        split <;> rfl
+        by_cases hbad : (ix = 0 ∨ l = 0 ∨ ix > l) ∨ fragOutOfSequence before ix l
+        · have hbad' : (ix = 0 ∨ l = 0 ∨ ix > l) ∨
+              (ix ≠ 1 ∧ ¬ ((before.index + 1) % 65536 = ix ∧ before.len = l)) := hbad
+          rw [if_pos hbad, if_pos hbad']; rfl
+        · have hbad' : ¬ ((ix = 0 ∨ l = 0 ∨ ix > l) ∨
+              (ix ≠ 1 ∧ ¬ ((before.index + 1) % 65536 = ix ∧ before.len = l))) := hbad
+          rw [if_neg hbad, if_neg hbad']
 
-/-- the fragment is useless: its prefix or body does not parse, or its numbering is illegal -/
-def fragmentDiscarded (ok1 : Bool) (parsed : Option (Bytes × Nat × Nat)) : Prop :=
+/-- nothing of the fragment is kept: its prefix or body does not parse, its numbering is illegal, or it is out of
+    sequence for the context `before` — everything but a first piece or the next piece of the stream being
+    collected -/
+def fragmentDiscarded (before : FragCtx) (ok1 : Bool) (parsed : Option (Bytes × Nat × Nat)) : Prop :=
   match ok1, parsed with
-  | true, some (_, ix, l) => ix = 0 ∨ l = 0 ∨ ix > l
+  | true, some (_, ix, l) => (ix = 0 ∨ l = 0 ∨ ix > l) ∨ fragOutOfSequence before ix l
   | _, _ => True
 
-/-- **C15 (repaired code).**  A fragment that is for another instance (ignored), that does not parse (rejected)
-    or whose numbering is illegal (discarded) leaves the conversation unbound: whatever looking at its prefix
-    did (state `s1`: a version committed, a long-term key selected, the sender's instance tag adopted), the
-    conversation afterwards is `s1` with version, long-term key choice and peer instance tag as before the call -/
+/-- **C15 (repaired code).**  A fragment that is for another instance (ignored), that does not parse (rejected),
+    whose numbering is illegal or that is out of sequence (discarded) leaves the conversation unbound: whatever
+    looking at its prefix did (state `s1`: a version committed, a long-term key selected, the sender's instance tag
+    adopted), the conversation afterwards is `s1` with version, long-term key choice and peer instance tag as
+    before the call.  Only a first piece or the next piece of the stream being collected binds -/
 theorem receiveFragment_discarded_unbinds (before : FragCtx) (data : Bytes) (s s1 s' : MState) (body : Bytes)
     (ignore ok1 : Bool) (r : Except Err FragCtx)
     (hp : runM (parseFragmentPrefix data) s = .ok (.ok (body, ignore, ok1), s1))
-    (hd : ignore = true ∨ fragmentDiscarded ok1 (parseFragment body))
+    (hd : ignore = true ∨ fragmentDiscarded before ok1 (parseFragment body))
     (h : runM (receiveFragment before data) s = .ok (r, s')) :
     s'.conv = (unbindState s s1).conv ∧
     s'.conv.version = s.conv.version ∧ s'.conv.ourCurrentKey = s.conv.ourCurrentKey ∧
@@ -916,7 +942,7 @@ theorem receiveFragment_discarded_unbinds (before : FragCtx) (data : Bytes) (s s
         | some x =>
           obtain ⟨d, ix, l⟩ := x
           rw [hpf] at h hd
-          have hbad : ix = 0 ∨ l = 0 ∨ ix > l := hd
+          have hbad : (ix = 0 ∨ l = 0 ∨ ix > l) ∨ fragOutOfSequence before ix l := hd
           simp only [if_pos hbad, Res.ok.injEq, Prod.mk.injEq] at h
           rw [← h.2]
 
@@ -939,7 +965,7 @@ theorem receiveFragment_rejected_unbinds (before : FragCtx) (data : Bytes) (s s'
       obtain ⟨body, ignore, ok1⟩ := x
       clear h0
       have hrun := receiveFragment_run_of_prefix before data s s1 body ignore ok1 hp
-      have hd : ignore = true ∨ fragmentDiscarded ok1 (parseFragment body) := by
+      have hd : ignore = true ∨ fragmentDiscarded before ok1 (parseFragment body) := by
         cases ignore with
         | true => exact Or.inl rfl
         | false =>
